@@ -29,10 +29,7 @@ def handle (j : J) : J :=
   let s := Driver.schemaOfJson (j.getD "schema")
   match j.strD "op" with
   | "introspect" => .obj [("data", introspect s (j.boolD "includeDeprecated"))]
-  | "type" =>
-    match typeByName s (j.boolD "includeDeprecated") (j.strD "name") with
-    | some t => .obj [("data", .obj [("__type", t)])]
-    | none => .obj [("raises", .str "UnknownType")]
+  | "type" => .obj [("data", .obj [("__type", typeByName s (j.boolD "includeDeprecated") (j.strD "name"))])]
   | "fieldDef" =>
     match s.findType (j.strD "parent") with
     | none => .obj [("error", .str "no-parent")]
